@@ -11,7 +11,7 @@ EXPLANATION = ("Coroutine-witness analysis of every task the driver spawns and o
                "paced by one peer stream (a stream read); the worker's acceptor branches (accept_uni/accept_bi/accept_datagram) await no per-stream read at all. Also: the worker loop's only suspension is its select!, handlers are "
                "synchronous; Driver accept methods hold at most their own queue's guard; queue capacities are >= 1 and the queues "
                "are distinct channels."
-               ' Also (C07-R7/R8): acceptor branches reserve the queue slots before pulling and own no pulled stream across a later await; C07-R9: the capacity of each per-direction hand-off queue (= how many stalled peer streams of that direction the worker tolerates while finding F2 stands) is not below the reference 4 uni / 1 bidi; an I/O fault (reset, lost) on one stalled stream is not re-labelled as an H3 error that closes the connection.')
+               ' Also (C07-R7/R8): acceptor branches reserve the queue slots before pulling and own no pulled stream across a later await; C07-R9: the capacity of each per-direction hand-off queue (= how many stalled peer streams of that direction the worker tolerates while finding F2 stands) is not below the reference 4 uni / 1 bidi; an I/O fault (reset, lost) on one stalled stream is not re-labelled as an H3 error that closes the connection. C07-R10: Worker::run closes the QUIC connection on every termination cause (reference table), which is what releases the hand-off permits of tasks stalled in a preamble so that the accept calls can report the end of the session.')
 NOT_DECIDED = ["liveness bounds", "quinn's stream scheduling and flow control"]
 TRUSTED = ["rustc coroutine layout", "reviewed resource / leaf-future tables (engine/corowit.py)", "tokio mpsc permit semantics"]
 
@@ -162,3 +162,6 @@ def run(ctx):
                                       e[4], key="handoff capacity|%s|%s/%s" % (label, role, stage))
             break
     ctx.floor("C07-R9", "per-direction hand-off queues", nq, 4)
+
+    ctx.rule("C07-R10", "the session closes cleanly whatever is stalled: when the session ends the worker closes the QUIC connection, which aborts the per-stream tasks still holding hand-off permits (queue senders)")
+    shared.worker_run_table(ctx, "C07-R10")
